@@ -8,6 +8,7 @@ import (
 	"encoding/hex"
 	"errors"
 	"fmt"
+	"math/big"
 	"os"
 	"slices"
 	"strings"
@@ -278,6 +279,12 @@ func proposalCase(o *hx.Out, k int, r *prng.R) {
 		nc.memPoolSize = r.Range(2, 10)
 	}
 	boundary := (bind == "size" || bind == "sysfee") && (k < 7 || r.Chance(2, 3))
+	// corpus cases 7..10 and a quarter of the others: co-signed transactions of different senders tied by Conflicts
+	// attributes, the payer's fees at the edge of its balance (see genEdge)
+	edge := (k >= 7 && k <= 10) || (!boundary && !many && r.Chance(1, 4))
+	if k >= 7 && k <= 10 {
+		bind, boundary = "none", false
+	}
 	if k < 6 {
 		// corpus: the defect fixed by 2cbe22b (state root not counted when sizing the proposal) lived here
 		nc.stateRoot = true
@@ -287,6 +294,9 @@ func proposalCase(o *hx.Out, k int, r *prng.R) {
 	o.Count(fmt.Sprintf("proposal:stateroot=%v", nc.stateRoot))
 	// senders and their funding (fixed before any chain exists, so that a chain can be rebuilt identically)
 	nSenders := r.Range(2, 6)
+	if edge {
+		nSenders = max(nSenders, 3)
+	}
 	ks := pickKeys(r, nSenders+6)
 	var senders []*acct
 	var amounts []int64
@@ -300,6 +310,10 @@ func proposalCase(o *hx.Out, k int, r *prng.R) {
 		amount := int64(r.Range(5, 400)) * 1_0000_0000
 		if many {
 			amount = 2000_0000_0000
+		} else if edge && i == 0 {
+			amount = 3_0000_0000 // the account whose pooled fees are put at the edge of its balance
+		} else if edge && i == 2 {
+			amount = 300_0000_0000
 		} else if r.Chance(1, 5) {
 			amount = int64(r.Range(1, 30)) * 1000_0000 // poor sender: some of its transactions will not fit
 		}
@@ -404,15 +418,22 @@ func proposalCase(o *hx.Out, k int, r *prng.R) {
 		preRaws = nil
 		if raws == nil {
 			raws = genRound(o, r, s, senders, committee, ntx, bind)
+			if edge && round == 0 {
+				raws = append(genEdge(o, r, s, senders, k), raws...)
+			}
 		}
 		var roundTxs []*transaction.Transaction
-		for _, raw := range raws {
+		for ri, raw := range raws {
 			t, err := transaction.NewTransactionFromBytes(raw)
 			if err != nil {
 				panic(err)
 			}
 			roundTxs = append(roundTxs, t)
-			if err := A.bc.PoolTx(t); err != nil {
+			err = A.bc.PoolTx(t)
+			if edge && round == 0 && ri < 3 {
+				o.Count(fmt.Sprintf("proposal:edge:tx%d:%s", ri, classify(err)))
+			}
+			if err != nil {
 				rejected++
 				o.Count("proposal:pooltx:" + classify(err))
 			} else {
@@ -420,6 +441,7 @@ func proposalCase(o *hx.Out, k int, r *prng.R) {
 			}
 		}
 		o.Add("proposal:pooled", pooled)
+		poolConsistent(o, k, A, "after pooling")
 		if r.Chance(1, 2) && !many {
 			// the chain moves on before this node proposes: the pool is re-checked against the new state
 			nblk := r.Range(1, 2)
@@ -474,6 +496,7 @@ func proposalCase(o *hx.Out, k int, r *prng.R) {
 				break
 			}
 		}
+		poolConsistent(o, k, A, "before packing")
 		txs := mp.GetVerifiedTransactions()
 		picked := A.bc.ApplyPolicyToTxSet(txs)
 
@@ -711,4 +734,133 @@ func scratchLine(o *hx.Out, k int, s *scen, w *world, txs []*transaction.Transac
 	if len(content) != len(txs) {
 		o.Count("scratch:some-rejected-or-replaced")
 	}
+}
+
+// poolConsistent recomputes, from the pooled transactions themselves (not from the pool's caches), the hypothesis
+// the packing theorem takes from C08: every transaction once, no two pooled transactions tied by a Conflicts
+// attribute, one response per oracle request, and for every payer (sender, or Notary + depositor) the system +
+// network fees of its pooled transactions within its balance / deposit.
+func poolConsistent(o *hx.Out, k int, w *world, when string) {
+	txs := w.bc.GetMemPool().GetVerifiedTransactions()
+	type payer struct{ p, s util.Uint160 }
+	sums := map[payer]*big.Int{}
+	var order []payer
+	seen := map[util.Uint256]bool{}
+	orc := map[uint64]bool{}
+	for _, t := range txs {
+		if seen[t.Hash()] {
+			o.Fail("pool-holds-tx-twice", k, "%s: %s", when, t.Hash().StringLE())
+		}
+		seen[t.Hash()] = true
+	}
+	for _, t := range txs {
+		q := payer{p: t.Sender()}
+		if t.Sender() == nativehashes.Notary && len(t.Signers) > 1 {
+			q.s = t.Signers[1].Account
+		}
+		if sums[q] == nil {
+			sums[q] = new(big.Int)
+			order = append(order, q)
+		}
+		sums[q].Add(sums[q], big.NewInt(t.SystemFee+t.NetworkFee))
+		for _, a := range t.GetAttributes(transaction.ConflictsT) {
+			if h := a.Value.(*transaction.Conflicts).Hash; seen[h] {
+				o.Fail("pool-holds-conflicting-pair", k, "%s: pooled %s names pooled %s in a Conflicts attribute", when, t.Hash().StringLE(), h.StringLE())
+			}
+		}
+		for _, a := range t.GetAttributes(transaction.OracleResponseT) {
+			id := a.Value.(*transaction.OracleResponse).ID
+			if orc[id] {
+				o.Fail("pool-two-responses", k, "%s: two pooled responses to request %d", when, id)
+			}
+			orc[id] = true
+		}
+	}
+	for _, q := range order {
+		bal := w.bc.GetUtilityTokenBalance(q.p, q.s)
+		if sums[q].Cmp(bal) > 0 {
+			o.Fail("pool-insolvent-payer", k, "%s: the pooled transactions of payer %s cost %s, its balance is %s (%d pooled)", when, q.p.StringLE(), sums[q], bal, len(txs))
+			break
+		}
+	}
+	o.Count("proposal:pool-consistency-checked")
+}
+
+// genEdge: the pool around a replacement through a Conflicts attribute between transactions of different senders.
+// A = senders[0] (3 GAS), B = senders[2] (rich). a1 (sent by A) uses part of A's balance; e is sent by one of A / B
+// and co-signed by the other; a2 (sent by A) and e are tied by a Conflicts attribute in one of the two directions,
+// a2 pays the higher network fee, and fees(a1)+fees(a2) sits at an edge of A's balance: exactly the balance, one
+// above, or — what decides if e's fees may be discounted — balance + fees(e) and one above that.
+func genEdge(o *hx.Out, r *prng.R, s *scen, senders []*acct, k int) [][]byte {
+	A, B := senders[0], senders[2]
+	bal := s.w.bc.GetUtilityTokenBalance(A.hash, util.Uint160{}).Int64()
+	height := s.w.bc.BlockHeight()
+	eBySenderB := r.Bool() // else: e is A's own transaction co-signed by B (its fees ARE discounted)
+	a2NamesE := r.Bool()
+	dsel := r.Intn(5)
+	switch k {
+	case 7:
+		eBySenderB, a2NamesE, dsel = true, true, 1
+	case 8:
+		eBySenderB, a2NamesE, dsel = true, false, 1
+	case 9:
+		eBySenderB, a2NamesE, dsel = true, true, 0
+	case 10:
+		eBySenderB, a2NamesE, dsel = false, true, 2
+	}
+	mk := func(signers []*acct, conflicts *util.Uint256, netExtra int64) *cand {
+		c := s.newCand(r, signers, 0)
+		c.tx.SystemFee = 100_0000
+		c.tx.ValidUntilBlock = height + 6
+		if conflicts != nil {
+			c.tx.Attributes = []transaction.Attribute{{Type: transaction.ConflictsT, Value: &transaction.Conflicts{Hash: *conflicts}}}
+		}
+		c.finish(netExtra)
+		return c
+	}
+	fees := func(c *cand) int64 { return c.tx.SystemFee + c.tx.NetworkFee }
+	a1 := mk([]*acct{A}, nil, bal*int64(r.Range(30, 55))/100)
+	es := []*acct{B, A}
+	if !eBySenderB {
+		es = []*acct{A, B}
+	}
+	var zero util.Uint256
+	var e, a2 *cand
+	eExtra := int64(r.Range(1000_0000, 3000_0000))
+	// e's fees do not depend on the hash it names, only on carrying the attribute
+	if a2NamesE {
+		e = mk(es, nil, eExtra)
+	} else {
+		e = mk(es, &zero, eExtra)
+	}
+	fe := fees(e)
+	f1 := fees(a1)
+	if !eBySenderB {
+		f1 += fe // e is paid by A as well
+	}
+	delta := []int64{0, 1, fe, fe + 1, -int64(r.Range(1, 1000))}[dsel]
+	// fees(a2) = bal + delta - (what A has pooled before a2)
+	a2 = mk([]*acct{A}, nil, 0)
+	if a2NamesE {
+		h := e.tx.Hash()
+		a2 = mk([]*acct{A}, &h, 0)
+	}
+	want := bal + delta - f1
+	a2.tx.NetworkFee += want - fees(a2)
+	if a2.tx.NetworkFee <= e.tx.NetworkFee || a2.tx.NetworkFee < a2.calc {
+		panic(tbFail{fmt.Sprintf("genEdge: cannot place a2's fee (%d, e pays %d, calculator %d)", a2.tx.NetworkFee, e.tx.NetworkFee, a2.calc)})
+	}
+	a2.sign()
+	if !a2NamesE {
+		// now that a2's hash is fixed, e names it
+		h := a2.tx.Hash()
+		e.tx.Attributes = []transaction.Attribute{{Type: transaction.ConflictsT, Value: &transaction.Conflicts{Hash: h}}}
+		e.finish(eExtra)
+		if fees(e) != fe {
+			panic(tbFail{"genEdge: e's fees moved"})
+		}
+	}
+	o.Count(fmt.Sprintf("proposal:edge:eBySenderB=%v,a2NamesE=%v,delta=%d", eBySenderB, a2NamesE, dsel))
+	// a1 and e are pooled first; when e names a2, a2 comes last as well (step 1 of checkTxConflicts)
+	return [][]byte{a1.tx.Bytes(), e.tx.Bytes(), a2.tx.Bytes()}
 }
